@@ -1101,6 +1101,106 @@ func registerStubs(w *World) {
 		v, err := strconv.Atoi(s)
 		return TupleV{IntC(int64(v)), in.nativeErr(err)}
 	}
+	// ParseInt / ParseUint: concrete text natively; short symbolic text by
+	// positional arithmetic in the given base (sign, digits, range of bitSize).
+	parseInt := func(signed bool) StubFn {
+		return func(in *Interp, fn *ssa.Function, a []Value) Value {
+			base := cint(in, a[1])
+			bits := cint(in, a[2])
+			if s, ok := in.concStr(a[0]); ok {
+				if signed {
+					v, err := strconv.ParseInt(s, base, bits)
+					return TupleV{IntC(v), in.nativeErr(err)}
+				}
+				v, err := strconv.ParseUint(s, base, bits)
+				return TupleV{BigC(new(big.Int).SetUint64(v)), in.nativeErr(err)}
+			}
+			sv := a[0].(*StrV)
+			in.needBytes(sv, "ParseInt")
+			n := sv.Len()
+			if base < 2 || base > 16 || n > 15 {
+				in.unsupported("ParseInt on symbolic text with this base / length")
+			}
+			if bits == 0 {
+				bits = 64
+			}
+			if n == 0 {
+				return TupleV{IntC(0), in.nativeErr(strconv.ErrSyntax)}
+			}
+			i := 0
+			neg := false
+			if signed {
+				if in.branch(Eq(sv.Byte(0), IntC('-'))) {
+					neg, i = true, 1
+				} else if in.branch(Eq(sv.Byte(0), IntC('+'))) {
+					i = 1
+				}
+			}
+			if i >= n {
+				return TupleV{IntC(0), in.nativeErr(strconv.ErrSyntax)}
+			}
+			v := IntC(0)
+			for ; i < n; i++ {
+				b := sv.Byte(i)
+				var d *Term
+				switch {
+				case in.branch(And(Ge(b, IntC('0')), Le(b, IntC('9')))):
+					d = Sub(b, IntC('0'))
+				case base > 10 && in.branch(And(Ge(b, IntC('a')), Le(b, IntC('z')))):
+					d = Sub(b, IntC('a'-10))
+				case base > 10 && in.branch(And(Ge(b, IntC('A')), Le(b, IntC('Z')))):
+					d = Sub(b, IntC('A'-10))
+				default:
+					return TupleV{IntC(0), in.nativeErr(strconv.ErrSyntax)}
+				}
+				if !in.branch(Lt(d, IntC(int64(base)))) {
+					return TupleV{IntC(0), in.nativeErr(strconv.ErrSyntax)}
+				}
+				v = Add(Mul(v, IntC(int64(base))), d)
+			}
+			if neg {
+				v = Neg(v)
+			}
+			lim := new(big.Int).Lsh(big.NewInt(1), uint(bits))
+			if signed {
+				lim.Rsh(lim, 1)
+				if !in.branch(And(Lt(v, BigC(lim)), Ge(v, Neg(BigC(lim))))) {
+					return TupleV{IntC(0), in.nativeErr(strconv.ErrRange)}
+				}
+			} else if !in.branch(Lt(v, BigC(lim))) {
+				return TupleV{IntC(0), in.nativeErr(strconv.ErrRange)}
+			}
+			return TupleV{v, NilIface}
+		}
+	}
+	S["strconv.ParseInt"] = parseInt(true)
+	S["strconv.ParseUint"] = parseInt(false)
+	S["strconv.ParseFloat"] = func(in *Interp, fn *ssa.Function, a []Value) Value {
+		s, ok := in.concStr(a[0])
+		if !ok {
+			in.unsupported("ParseFloat on symbolic text")
+		}
+		bits := cint(in, a[1])
+		v, err := strconv.ParseFloat(s, bits)
+		return TupleV{FloatFromGo(v, 64), in.nativeErr(err)}
+	}
+	S["strconv.FormatFloat"] = func(in *Interp, fn *ssa.Function, a []Value) Value {
+		f, ok := a[0].(*FloatV)
+		if !ok {
+			in.unsupported("FormatFloat argument")
+		}
+		g, ok := f.GoFloat()
+		if !ok {
+			return in.opaqueStr()
+		}
+		c, ok1 := a[1].(*Term).IntVal()
+		pr, ok2 := a[2].(*Term).IntVal()
+		bs, ok3 := a[3].(*Term).IntVal()
+		if !ok1 || !ok2 || !ok3 {
+			return in.opaqueStr()
+		}
+		return ConcStr(strconv.FormatFloat(g, byte(c.Int64()), int(pr.Int64()), int(bs.Int64())))
+	}
 	strOut := func(f func(in *Interp, a []Value) (string, bool)) StubFn {
 		return func(in *Interp, fn *ssa.Function, a []Value) Value {
 			s, ok := f(in, a)
